@@ -171,7 +171,9 @@ class CacheStore(object):
                 raise
 
         with fd:
-            if not self._cache_is_valid(store_filename, filename):
+            # Check the file we actually opened, not whatever the path names now:
+            # another process may have replaced the entry in the meantime.
+            if not self._cache_is_valid(fd.fileno(), filename):
                 return None
             try:
                 data = pickle.load(fd)
